@@ -132,6 +132,8 @@ pub enum Ev {
     /// soak: n rejected deliveries in a row on receiver r (variants of the record it would accept next,
     /// or garbage if there is none); every one must be rejected and leave the position alone
     RejectBurst { r: usize, from: usize, n: u32 },
+    /// n exports in a row on one context (counters of successes in a narrow integer)
+    ExportBurst { c: usize, role: Role, n: u32, len: usize },
     /// context dropped while its thread is unwinding from a panic (the wipes must still happen)
     TeardownUnwinding { c: usize, role: Role },
     /// content-dependent adversary: for every record of sender `from` whose ct||tag ends in zero
@@ -172,6 +174,7 @@ impl Ev {
             Ev::RawOpen { .. } => "RawOpen",
             Ev::On { .. } => "On",
             Ev::RejectBurst { .. } => "RejectBurst",
+            Ev::ExportBurst { .. } => "ExportBurst",
             Ev::TeardownUnwinding { .. } => "TeardownUnwinding",
             Ev::StripZerosProbe { .. } => "StripZerosProbe",
             Ev::SingleShotOpenRaw { .. } => "SingleShotOpenRaw",
